@@ -6,5 +6,6 @@ pub(crate) mod spec;
 mod c18_ident;
 mod c18_path;
 mod c06_encode;
+mod c06_decode;
 mod standins;
 mod std_contracts;
